@@ -95,15 +95,15 @@ FixedModels == <<M_Prims, M_Enums, M_Hier, M_Mixin, M_Rec>>
 
 -----------------------------------------------------------------------------
 (* parametric family: a container with two properties, each of one of 32 kinds -- 1024 meta-models *)
-KindTypes == << TBool, TInt, TFloat, TStr, TBytes, TEnum("Color"), TCls("Item"), TCls("Base"),
-                TList(TBool), TList(TInt), TList(TFloat), TList(TStr), TList(TBytes), TList(TEnum("Color")), TList(TCls("Item")), TList(TCls("Base")) >>
+KindTypes == << TBool, TInt, TFloat, TStr, TBytes, TEnum("Color"), TCls("Item"), TCls("Thing"),
+                TList(TBool), TList(TInt), TList(TFloat), TList(TStr), TList(TBytes), TList(TEnum("Color")), TList(TCls("Item")), TList(TCls("Thing")) >>
 NKinds == 2 * Len(KindTypes)
 KindProp(name, k) == [name |-> name, type |-> KindTypes[((k - 1) % Len(KindTypes)) + 1], opt |-> k > Len(KindTypes)]
 ParamModel(a, b) == Prep([id |-> "param_" \o ToString(a) \o "_" \o ToString(b), root |-> "Something", enums |-> <<E_Color>>, classes |-> <<
     Cls(Id1("Item", "item", "Item", "ITEM"), FALSE, FALSE, <<>>, << P(Id1("n", "n", "N", "N"), TInt) >>),
-    Cls(Id1("Base", "base", "Base", "BASE"), TRUE, TRUE, <<>>, << P(Id1("tag", "tag", "Tag", "TAG"), TStr) >>),
-    Cls(Id("Derived_a", <<"derived", "a">>, <<"Derived", "A">>, <<"DERIVED", "A">>), FALSE, FALSE, <<"Base">>, << P(Id1("x", "x", "X", "X"), TInt) >>),
-    Cls(Id("Derived_b", <<"derived", "b">>, <<"Derived", "B">>, <<"DERIVED", "B">>), FALSE, FALSE, <<"Base">>, << O(Id1("y", "y", "Y", "Y"), TStr) >>),
+    Cls(Id1("Thing", "thing", "Thing", "THING"), TRUE, TRUE, <<>>, << P(Id1("tag", "tag", "Tag", "TAG"), TStr) >>),
+    Cls(Id("Derived_a", <<"derived", "a">>, <<"Derived", "A">>, <<"DERIVED", "A">>), FALSE, FALSE, <<"Thing">>, << P(Id1("x", "x", "X", "X"), TInt) >>),
+    Cls(Id("Derived_b", <<"derived", "b">>, <<"Derived", "B">>, <<"DERIVED", "B">>), FALSE, FALSE, <<"Thing">>, << O(Id1("y", "y", "Y", "Y"), TStr) >>),
     Cls(I_Something, FALSE, FALSE, <<>>, <<
         KindProp(Id1("first", "first", "First", "FIRST"), a),
         KindProp(Id("second_one", <<"second", "one">>, <<"Second", "One">>, <<"SECOND", "ONE">>), b) >>) >>])
